@@ -228,7 +228,10 @@ impl<M: Math> AdaptStrategy<M> for ExternalTransformAdaptation {
                 )?;
             }
             self.step_size.update_estimator_early();
-            self.step_size.update_stepsize(rng, hamiltonian, false);
+            // With an empty final step-size window this is the last tuning draw:
+            // sampling has to start from the averaged step.
+            let is_last = draw + 1 == self.num_tune;
+            self.step_size.update_stepsize(rng, hamiltonian, is_last);
             return Ok(());
         }
 
